@@ -1234,6 +1234,23 @@ pub open spec fn minv_post(bs: BoundSet, r: Option<Version>) -> bool {
 }
 pub open spec fn lower_excl(b: Bound) -> bool { b matches Bound::Lower(Predicate::Excluding(_)) }
 
+// ===================== proof side: `<=M` / `<=M.m` are written as `<=M.MAX.MAX` / `<=M.m.MAX` =====================
+pub proof fn lemma_le_major_equiv(mj: int, v: VKey)
+    requires wfk(v), 0 <= mj <= MAX_SAFE_INTEGER
+    ensures below(Cut::At(k3(mj, MAX_SAFE_INTEGER as int, MAX_SAFE_INTEGER as int), true), v) == below(Cut::At(k4(mj + 1, 0, 0, pre0()), false), v),
+            // no prerelease opt-in on either side for a version under the bound
+            below(Cut::At(k4(mj + 1, 0, 0, pre0()), false), v) ==> !same_tuple(k4(mj + 1, 0, 0, pre0()), v),
+{
+    if v.pre.len() > 0 { lemma_least_pre0(v.pre); lemma_pre_flip(v.pre, pre0()); }
+}
+pub proof fn lemma_le_minor_equiv(mj: int, mn: int, v: VKey)
+    requires wfk(v), 0 <= mj <= MAX_SAFE_INTEGER, 0 <= mn <= MAX_SAFE_INTEGER
+    ensures below(Cut::At(k3(mj, mn, MAX_SAFE_INTEGER as int), true), v) == below(Cut::At(k4(mj, mn + 1, 0, pre0()), false), v),
+            below(Cut::At(k4(mj, mn + 1, 0, pre0()), false), v) ==> !same_tuple(k4(mj, mn + 1, 0, pre0()), v),
+{
+    if v.pre.len() > 0 { lemma_least_pre0(v.pre); lemma_pre_flip(v.pre, pre0()); }
+}
+
 
 use vstd::std_specs::convert::*;
 impl FromSpecImpl<(i32, i32, i32)> for Version { open spec fn obeys_from_spec() -> bool { false } open spec fn from_spec(v: (i32, i32, i32)) -> Self { arbitrary() } }
@@ -2018,8 +2035,8 @@ fn caret_desugar(parsed: Partial) -> (r: Option<BoundSet>)
         }
 }
 
-fn primitive_desugar(parsed: (Operation, Partial)) -> (r: Option<BoundSet>)
-    requires wf_partial(parsed.1),
+fn primitive_desugar_Exact(parsed: (Operation, Partial)) -> (r: Option<BoundSet>)
+    requires wf_partial(parsed.1), parsed.0 == Operation::Exact,
     ensures
         parsed.0 == Operation::Exact && parsed.1.major is None && parsed.1.minor is None && parsed.1.patch is None && parsed.1.pre_release@.len() == 0 ==> shape_ok_c(r, npm_primitive_c(parsed.0, parsed.1)),  // Exact#N.N.N
         parsed.0 == Operation::Exact && parsed.1.major is None && parsed.1.minor is None && parsed.1.patch is None && parsed.1.pre_release@.len() > 0 ==> shape_ok_c(r, npm_primitive_c(parsed.0, parsed.1)),  // Exact#N.N.N+pre
@@ -2037,6 +2054,147 @@ fn primitive_desugar(parsed: (Operation, Partial)) -> (r: Option<BoundSet>)
         parsed.0 == Operation::Exact && parsed.1.major is Some && parsed.1.minor is Some && parsed.1.patch is None && parsed.1.pre_release@.len() > 0 ==> shape_ok_c(r, npm_primitive_c(parsed.0, parsed.1)),  // Exact#S.S.N+pre
         parsed.0 == Operation::Exact && parsed.1.major is Some && parsed.1.minor is Some && parsed.1.patch is Some && parsed.1.pre_release@.len() == 0 ==> shape_ok_c(r, npm_primitive_c(parsed.0, parsed.1)),  // Exact#S.S.S
         parsed.0 == Operation::Exact && parsed.1.major is Some && parsed.1.minor is Some && parsed.1.patch is Some && parsed.1.pre_release@.len() > 0 ==> shape_ok_c(r, npm_primitive_c(parsed.0, parsed.1)),  // Exact#S.S.S+pre
+{
+ broadcast use group_k_order, group_sets;
+ proof { reveal(cut_cmp);
+        assert forall|s: Seq<Identifier>| #![trigger s.len()] s.len() == 1 && s[0] == Identifier::Numeric(0) implies s == pre0() by { assert(s =~= pre0()); }
+        assert forall|s: Seq<Identifier>| #![trigger s.len()] s.len() == 0 implies s == Seq::<Identifier>::empty() by { assert(s =~= Seq::<Identifier>::empty()); }
+ }
+    use Operation::*;
+match parsed {
+            // `>x` and `<x` admit nothing, every other operator on a wildcard admits everything
+            (GreaterThan | LessThan, Partial { major: None, .. }) => BoundSet::at_most(
+                Predicate::Excluding((0, 0, 0, 0).into()),
+            ),
+            (_, Partial { major: None, .. }) => {
+                BoundSet::at_least(Predicate::Including((0, 0, 0).into()))
+            }
+            (GreaterThanEquals, partial) => {
+                BoundSet::at_least(Predicate::Including(partial.into()))
+            }
+            (
+                GreaterThan,
+                Partial {
+                    major: Some(major),
+                    minor: Some(minor),
+                    patch: None,
+                    ..
+                },
+            ) => BoundSet::at_least(Predicate::Including((major, minor + 1, 0).into())),
+            (
+                GreaterThan,
+                Partial {
+                    major: Some(major),
+                    minor: None,
+                    patch: None,
+                    ..
+                },
+            ) => BoundSet::at_least(Predicate::Including((major + 1, 0, 0).into())),
+            (GreaterThan, partial) => BoundSet::at_least(Predicate::Excluding(partial.into())),
+            (
+                LessThan,
+                Partial {
+                    major: Some(major),
+                    minor: Some(minor),
+                    patch: None,
+                    ..
+                },
+            ) => BoundSet::at_most(Predicate::Excluding((major, minor, 0, 0).into())),
+            (
+                LessThan,
+                Partial {
+                    major,
+                    minor,
+                    patch,
+                    pre_release,
+                    build,
+                    ..
+                },
+            ) => BoundSet::at_most(Predicate::Excluding(Version {
+                major: major.unwrap_or(0),
+                minor: minor.unwrap_or(0),
+                patch: patch.unwrap_or(0),
+                build,
+                pre_release,
+            })),
+            (
+                LessThanEquals,
+                Partial {
+                    major,
+                    minor: None,
+                    patch: None,
+                    ..
+                },
+            ) => BoundSet::at_most(Predicate::Including(
+                (major.unwrap_or(0), MAX_SAFE_INTEGER, MAX_SAFE_INTEGER).into(),
+            )),
+            (
+                LessThanEquals,
+                Partial {
+                    major,
+                    minor,
+                    patch: None,
+                    ..
+                },
+            ) => BoundSet::at_most(Predicate::Including(
+                (major.unwrap_or(0), minor.unwrap_or(0), MAX_SAFE_INTEGER).into(),
+            )),
+            (LessThanEquals, partial) => BoundSet::at_most(Predicate::Including(partial.into())),
+            (
+                Exact,
+                Partial {
+                    major: Some(major),
+                    minor: Some(minor),
+                    patch: Some(patch),
+                    pre_release,
+                    ..
+                },
+            ) => BoundSet::exact(Version {
+                major,
+                minor,
+                patch,
+                pre_release,
+                build: vec![],
+            }),
+            (
+                Exact,
+                Partial {
+                    major: Some(major),
+                    minor: Some(minor),
+                    ..
+                },
+            ) => BoundSet::new(
+                Bound::Lower(Predicate::Including((major, minor, 0).into())),
+                Bound::Upper(Predicate::Excluding(Version {
+                    major,
+                    minor: minor + 1,
+                    patch: 0,
+                    pre_release: vec![Identifier::Numeric(0)],
+                    build: vec![],
+                })),
+            ),
+            (
+                Exact,
+                Partial {
+                    major: Some(major), ..
+                },
+            ) => BoundSet::new(
+                Bound::Lower(Predicate::Including((major, 0, 0).into())),
+                Bound::Upper(Predicate::Excluding(Version {
+                    major: major + 1,
+                    minor: 0,
+                    patch: 0,
+                    pre_release: vec![Identifier::Numeric(0)],
+                    build: vec![],
+                })),
+            ),
+            _ => None,
+        }
+}
+
+fn primitive_desugar_GreaterThan(parsed: (Operation, Partial)) -> (r: Option<BoundSet>)
+    requires wf_partial(parsed.1), parsed.0 == Operation::GreaterThan,
+    ensures
         parsed.0 == Operation::GreaterThan && parsed.1.major is None && parsed.1.minor is None && parsed.1.patch is None && parsed.1.pre_release@.len() == 0 ==> shape_ok_c(r, npm_primitive_c(parsed.0, parsed.1)),  // GreaterThan#N.N.N
         parsed.0 == Operation::GreaterThan && parsed.1.major is None && parsed.1.minor is None && parsed.1.patch is None && parsed.1.pre_release@.len() > 0 ==> shape_ok_c(r, npm_primitive_c(parsed.0, parsed.1)),  // GreaterThan#N.N.N+pre
         parsed.0 == Operation::GreaterThan && parsed.1.major is None && parsed.1.minor is None && parsed.1.patch is Some && parsed.1.pre_release@.len() == 0 ==> shape_ok_c(r, npm_primitive_c(parsed.0, parsed.1)),  // GreaterThan#N.N.S
@@ -2053,6 +2211,147 @@ fn primitive_desugar(parsed: (Operation, Partial)) -> (r: Option<BoundSet>)
         parsed.0 == Operation::GreaterThan && parsed.1.major is Some && parsed.1.minor is Some && parsed.1.patch is None && parsed.1.pre_release@.len() > 0 ==> shape_ok_c(r, npm_primitive_c(parsed.0, parsed.1)),  // GreaterThan#S.S.N+pre
         parsed.0 == Operation::GreaterThan && parsed.1.major is Some && parsed.1.minor is Some && parsed.1.patch is Some && parsed.1.pre_release@.len() == 0 ==> shape_ok_c(r, npm_primitive_c(parsed.0, parsed.1)),  // GreaterThan#S.S.S
         parsed.0 == Operation::GreaterThan && parsed.1.major is Some && parsed.1.minor is Some && parsed.1.patch is Some && parsed.1.pre_release@.len() > 0 ==> shape_ok_c(r, npm_primitive_c(parsed.0, parsed.1)),  // GreaterThan#S.S.S+pre
+{
+ broadcast use group_k_order, group_sets;
+ proof { reveal(cut_cmp);
+        assert forall|s: Seq<Identifier>| #![trigger s.len()] s.len() == 1 && s[0] == Identifier::Numeric(0) implies s == pre0() by { assert(s =~= pre0()); }
+        assert forall|s: Seq<Identifier>| #![trigger s.len()] s.len() == 0 implies s == Seq::<Identifier>::empty() by { assert(s =~= Seq::<Identifier>::empty()); }
+ }
+    use Operation::*;
+match parsed {
+            // `>x` and `<x` admit nothing, every other operator on a wildcard admits everything
+            (GreaterThan | LessThan, Partial { major: None, .. }) => BoundSet::at_most(
+                Predicate::Excluding((0, 0, 0, 0).into()),
+            ),
+            (_, Partial { major: None, .. }) => {
+                BoundSet::at_least(Predicate::Including((0, 0, 0).into()))
+            }
+            (GreaterThanEquals, partial) => {
+                BoundSet::at_least(Predicate::Including(partial.into()))
+            }
+            (
+                GreaterThan,
+                Partial {
+                    major: Some(major),
+                    minor: Some(minor),
+                    patch: None,
+                    ..
+                },
+            ) => BoundSet::at_least(Predicate::Including((major, minor + 1, 0).into())),
+            (
+                GreaterThan,
+                Partial {
+                    major: Some(major),
+                    minor: None,
+                    patch: None,
+                    ..
+                },
+            ) => BoundSet::at_least(Predicate::Including((major + 1, 0, 0).into())),
+            (GreaterThan, partial) => BoundSet::at_least(Predicate::Excluding(partial.into())),
+            (
+                LessThan,
+                Partial {
+                    major: Some(major),
+                    minor: Some(minor),
+                    patch: None,
+                    ..
+                },
+            ) => BoundSet::at_most(Predicate::Excluding((major, minor, 0, 0).into())),
+            (
+                LessThan,
+                Partial {
+                    major,
+                    minor,
+                    patch,
+                    pre_release,
+                    build,
+                    ..
+                },
+            ) => BoundSet::at_most(Predicate::Excluding(Version {
+                major: major.unwrap_or(0),
+                minor: minor.unwrap_or(0),
+                patch: patch.unwrap_or(0),
+                build,
+                pre_release,
+            })),
+            (
+                LessThanEquals,
+                Partial {
+                    major,
+                    minor: None,
+                    patch: None,
+                    ..
+                },
+            ) => BoundSet::at_most(Predicate::Including(
+                (major.unwrap_or(0), MAX_SAFE_INTEGER, MAX_SAFE_INTEGER).into(),
+            )),
+            (
+                LessThanEquals,
+                Partial {
+                    major,
+                    minor,
+                    patch: None,
+                    ..
+                },
+            ) => BoundSet::at_most(Predicate::Including(
+                (major.unwrap_or(0), minor.unwrap_or(0), MAX_SAFE_INTEGER).into(),
+            )),
+            (LessThanEquals, partial) => BoundSet::at_most(Predicate::Including(partial.into())),
+            (
+                Exact,
+                Partial {
+                    major: Some(major),
+                    minor: Some(minor),
+                    patch: Some(patch),
+                    pre_release,
+                    ..
+                },
+            ) => BoundSet::exact(Version {
+                major,
+                minor,
+                patch,
+                pre_release,
+                build: vec![],
+            }),
+            (
+                Exact,
+                Partial {
+                    major: Some(major),
+                    minor: Some(minor),
+                    ..
+                },
+            ) => BoundSet::new(
+                Bound::Lower(Predicate::Including((major, minor, 0).into())),
+                Bound::Upper(Predicate::Excluding(Version {
+                    major,
+                    minor: minor + 1,
+                    patch: 0,
+                    pre_release: vec![Identifier::Numeric(0)],
+                    build: vec![],
+                })),
+            ),
+            (
+                Exact,
+                Partial {
+                    major: Some(major), ..
+                },
+            ) => BoundSet::new(
+                Bound::Lower(Predicate::Including((major, 0, 0).into())),
+                Bound::Upper(Predicate::Excluding(Version {
+                    major: major + 1,
+                    minor: 0,
+                    patch: 0,
+                    pre_release: vec![Identifier::Numeric(0)],
+                    build: vec![],
+                })),
+            ),
+            _ => None,
+        }
+}
+
+fn primitive_desugar_GreaterThanEquals(parsed: (Operation, Partial)) -> (r: Option<BoundSet>)
+    requires wf_partial(parsed.1), parsed.0 == Operation::GreaterThanEquals,
+    ensures
         parsed.0 == Operation::GreaterThanEquals && parsed.1.major is None && parsed.1.minor is None && parsed.1.patch is None && parsed.1.pre_release@.len() == 0 ==> shape_ok_c(r, npm_primitive_c(parsed.0, parsed.1)),  // GreaterThanEquals#N.N.N
         parsed.0 == Operation::GreaterThanEquals && parsed.1.major is None && parsed.1.minor is None && parsed.1.patch is None && parsed.1.pre_release@.len() > 0 ==> shape_ok_c(r, npm_primitive_c(parsed.0, parsed.1)),  // GreaterThanEquals#N.N.N+pre
         parsed.0 == Operation::GreaterThanEquals && parsed.1.major is None && parsed.1.minor is None && parsed.1.patch is Some && parsed.1.pre_release@.len() == 0 ==> shape_ok_c(r, npm_primitive_c(parsed.0, parsed.1)),  // GreaterThanEquals#N.N.S
@@ -2069,6 +2368,147 @@ fn primitive_desugar(parsed: (Operation, Partial)) -> (r: Option<BoundSet>)
         parsed.0 == Operation::GreaterThanEquals && parsed.1.major is Some && parsed.1.minor is Some && parsed.1.patch is None && parsed.1.pre_release@.len() > 0 ==> shape_ok_c(r, npm_primitive_c(parsed.0, parsed.1)),  // GreaterThanEquals#S.S.N+pre
         parsed.0 == Operation::GreaterThanEquals && parsed.1.major is Some && parsed.1.minor is Some && parsed.1.patch is Some && parsed.1.pre_release@.len() == 0 ==> shape_ok_c(r, npm_primitive_c(parsed.0, parsed.1)),  // GreaterThanEquals#S.S.S
         parsed.0 == Operation::GreaterThanEquals && parsed.1.major is Some && parsed.1.minor is Some && parsed.1.patch is Some && parsed.1.pre_release@.len() > 0 ==> shape_ok_c(r, npm_primitive_c(parsed.0, parsed.1)),  // GreaterThanEquals#S.S.S+pre
+{
+ broadcast use group_k_order, group_sets;
+ proof { reveal(cut_cmp);
+        assert forall|s: Seq<Identifier>| #![trigger s.len()] s.len() == 1 && s[0] == Identifier::Numeric(0) implies s == pre0() by { assert(s =~= pre0()); }
+        assert forall|s: Seq<Identifier>| #![trigger s.len()] s.len() == 0 implies s == Seq::<Identifier>::empty() by { assert(s =~= Seq::<Identifier>::empty()); }
+ }
+    use Operation::*;
+match parsed {
+            // `>x` and `<x` admit nothing, every other operator on a wildcard admits everything
+            (GreaterThan | LessThan, Partial { major: None, .. }) => BoundSet::at_most(
+                Predicate::Excluding((0, 0, 0, 0).into()),
+            ),
+            (_, Partial { major: None, .. }) => {
+                BoundSet::at_least(Predicate::Including((0, 0, 0).into()))
+            }
+            (GreaterThanEquals, partial) => {
+                BoundSet::at_least(Predicate::Including(partial.into()))
+            }
+            (
+                GreaterThan,
+                Partial {
+                    major: Some(major),
+                    minor: Some(minor),
+                    patch: None,
+                    ..
+                },
+            ) => BoundSet::at_least(Predicate::Including((major, minor + 1, 0).into())),
+            (
+                GreaterThan,
+                Partial {
+                    major: Some(major),
+                    minor: None,
+                    patch: None,
+                    ..
+                },
+            ) => BoundSet::at_least(Predicate::Including((major + 1, 0, 0).into())),
+            (GreaterThan, partial) => BoundSet::at_least(Predicate::Excluding(partial.into())),
+            (
+                LessThan,
+                Partial {
+                    major: Some(major),
+                    minor: Some(minor),
+                    patch: None,
+                    ..
+                },
+            ) => BoundSet::at_most(Predicate::Excluding((major, minor, 0, 0).into())),
+            (
+                LessThan,
+                Partial {
+                    major,
+                    minor,
+                    patch,
+                    pre_release,
+                    build,
+                    ..
+                },
+            ) => BoundSet::at_most(Predicate::Excluding(Version {
+                major: major.unwrap_or(0),
+                minor: minor.unwrap_or(0),
+                patch: patch.unwrap_or(0),
+                build,
+                pre_release,
+            })),
+            (
+                LessThanEquals,
+                Partial {
+                    major,
+                    minor: None,
+                    patch: None,
+                    ..
+                },
+            ) => BoundSet::at_most(Predicate::Including(
+                (major.unwrap_or(0), MAX_SAFE_INTEGER, MAX_SAFE_INTEGER).into(),
+            )),
+            (
+                LessThanEquals,
+                Partial {
+                    major,
+                    minor,
+                    patch: None,
+                    ..
+                },
+            ) => BoundSet::at_most(Predicate::Including(
+                (major.unwrap_or(0), minor.unwrap_or(0), MAX_SAFE_INTEGER).into(),
+            )),
+            (LessThanEquals, partial) => BoundSet::at_most(Predicate::Including(partial.into())),
+            (
+                Exact,
+                Partial {
+                    major: Some(major),
+                    minor: Some(minor),
+                    patch: Some(patch),
+                    pre_release,
+                    ..
+                },
+            ) => BoundSet::exact(Version {
+                major,
+                minor,
+                patch,
+                pre_release,
+                build: vec![],
+            }),
+            (
+                Exact,
+                Partial {
+                    major: Some(major),
+                    minor: Some(minor),
+                    ..
+                },
+            ) => BoundSet::new(
+                Bound::Lower(Predicate::Including((major, minor, 0).into())),
+                Bound::Upper(Predicate::Excluding(Version {
+                    major,
+                    minor: minor + 1,
+                    patch: 0,
+                    pre_release: vec![Identifier::Numeric(0)],
+                    build: vec![],
+                })),
+            ),
+            (
+                Exact,
+                Partial {
+                    major: Some(major), ..
+                },
+            ) => BoundSet::new(
+                Bound::Lower(Predicate::Including((major, 0, 0).into())),
+                Bound::Upper(Predicate::Excluding(Version {
+                    major: major + 1,
+                    minor: 0,
+                    patch: 0,
+                    pre_release: vec![Identifier::Numeric(0)],
+                    build: vec![],
+                })),
+            ),
+            _ => None,
+        }
+}
+
+fn primitive_desugar_LessThan(parsed: (Operation, Partial)) -> (r: Option<BoundSet>)
+    requires wf_partial(parsed.1), parsed.0 == Operation::LessThan,
+    ensures
         parsed.0 == Operation::LessThan && parsed.1.major is None && parsed.1.minor is None && parsed.1.patch is None && parsed.1.pre_release@.len() == 0 ==> shape_ok_c(r, npm_primitive_c(parsed.0, parsed.1)),  // LessThan#N.N.N
         parsed.0 == Operation::LessThan && parsed.1.major is None && parsed.1.minor is None && parsed.1.patch is None && parsed.1.pre_release@.len() > 0 ==> shape_ok_c(r, npm_primitive_c(parsed.0, parsed.1)),  // LessThan#N.N.N+pre
         parsed.0 == Operation::LessThan && parsed.1.major is None && parsed.1.minor is None && parsed.1.patch is Some && parsed.1.pre_release@.len() == 0 ==> shape_ok_c(r, npm_primitive_c(parsed.0, parsed.1)),  // LessThan#N.N.S
@@ -2085,6 +2525,147 @@ fn primitive_desugar(parsed: (Operation, Partial)) -> (r: Option<BoundSet>)
         parsed.0 == Operation::LessThan && parsed.1.major is Some && parsed.1.minor is Some && parsed.1.patch is None && parsed.1.pre_release@.len() > 0 ==> shape_ok_c(r, npm_primitive_c(parsed.0, parsed.1)),  // LessThan#S.S.N+pre
         parsed.0 == Operation::LessThan && parsed.1.major is Some && parsed.1.minor is Some && parsed.1.patch is Some && parsed.1.pre_release@.len() == 0 ==> shape_ok_c(r, npm_primitive_c(parsed.0, parsed.1)),  // LessThan#S.S.S
         parsed.0 == Operation::LessThan && parsed.1.major is Some && parsed.1.minor is Some && parsed.1.patch is Some && parsed.1.pre_release@.len() > 0 ==> shape_ok_c(r, npm_primitive_c(parsed.0, parsed.1)),  // LessThan#S.S.S+pre
+{
+ broadcast use group_k_order, group_sets;
+ proof { reveal(cut_cmp);
+        assert forall|s: Seq<Identifier>| #![trigger s.len()] s.len() == 1 && s[0] == Identifier::Numeric(0) implies s == pre0() by { assert(s =~= pre0()); }
+        assert forall|s: Seq<Identifier>| #![trigger s.len()] s.len() == 0 implies s == Seq::<Identifier>::empty() by { assert(s =~= Seq::<Identifier>::empty()); }
+ }
+    use Operation::*;
+match parsed {
+            // `>x` and `<x` admit nothing, every other operator on a wildcard admits everything
+            (GreaterThan | LessThan, Partial { major: None, .. }) => BoundSet::at_most(
+                Predicate::Excluding((0, 0, 0, 0).into()),
+            ),
+            (_, Partial { major: None, .. }) => {
+                BoundSet::at_least(Predicate::Including((0, 0, 0).into()))
+            }
+            (GreaterThanEquals, partial) => {
+                BoundSet::at_least(Predicate::Including(partial.into()))
+            }
+            (
+                GreaterThan,
+                Partial {
+                    major: Some(major),
+                    minor: Some(minor),
+                    patch: None,
+                    ..
+                },
+            ) => BoundSet::at_least(Predicate::Including((major, minor + 1, 0).into())),
+            (
+                GreaterThan,
+                Partial {
+                    major: Some(major),
+                    minor: None,
+                    patch: None,
+                    ..
+                },
+            ) => BoundSet::at_least(Predicate::Including((major + 1, 0, 0).into())),
+            (GreaterThan, partial) => BoundSet::at_least(Predicate::Excluding(partial.into())),
+            (
+                LessThan,
+                Partial {
+                    major: Some(major),
+                    minor: Some(minor),
+                    patch: None,
+                    ..
+                },
+            ) => BoundSet::at_most(Predicate::Excluding((major, minor, 0, 0).into())),
+            (
+                LessThan,
+                Partial {
+                    major,
+                    minor,
+                    patch,
+                    pre_release,
+                    build,
+                    ..
+                },
+            ) => BoundSet::at_most(Predicate::Excluding(Version {
+                major: major.unwrap_or(0),
+                minor: minor.unwrap_or(0),
+                patch: patch.unwrap_or(0),
+                build,
+                pre_release,
+            })),
+            (
+                LessThanEquals,
+                Partial {
+                    major,
+                    minor: None,
+                    patch: None,
+                    ..
+                },
+            ) => BoundSet::at_most(Predicate::Including(
+                (major.unwrap_or(0), MAX_SAFE_INTEGER, MAX_SAFE_INTEGER).into(),
+            )),
+            (
+                LessThanEquals,
+                Partial {
+                    major,
+                    minor,
+                    patch: None,
+                    ..
+                },
+            ) => BoundSet::at_most(Predicate::Including(
+                (major.unwrap_or(0), minor.unwrap_or(0), MAX_SAFE_INTEGER).into(),
+            )),
+            (LessThanEquals, partial) => BoundSet::at_most(Predicate::Including(partial.into())),
+            (
+                Exact,
+                Partial {
+                    major: Some(major),
+                    minor: Some(minor),
+                    patch: Some(patch),
+                    pre_release,
+                    ..
+                },
+            ) => BoundSet::exact(Version {
+                major,
+                minor,
+                patch,
+                pre_release,
+                build: vec![],
+            }),
+            (
+                Exact,
+                Partial {
+                    major: Some(major),
+                    minor: Some(minor),
+                    ..
+                },
+            ) => BoundSet::new(
+                Bound::Lower(Predicate::Including((major, minor, 0).into())),
+                Bound::Upper(Predicate::Excluding(Version {
+                    major,
+                    minor: minor + 1,
+                    patch: 0,
+                    pre_release: vec![Identifier::Numeric(0)],
+                    build: vec![],
+                })),
+            ),
+            (
+                Exact,
+                Partial {
+                    major: Some(major), ..
+                },
+            ) => BoundSet::new(
+                Bound::Lower(Predicate::Including((major, 0, 0).into())),
+                Bound::Upper(Predicate::Excluding(Version {
+                    major: major + 1,
+                    minor: 0,
+                    patch: 0,
+                    pre_release: vec![Identifier::Numeric(0)],
+                    build: vec![],
+                })),
+            ),
+            _ => None,
+        }
+}
+
+fn primitive_desugar_LessThanEquals(parsed: (Operation, Partial)) -> (r: Option<BoundSet>)
+    requires wf_partial(parsed.1), parsed.0 == Operation::LessThanEquals,
+    ensures
         parsed.0 == Operation::LessThanEquals && parsed.1.major is None && parsed.1.minor is None && parsed.1.patch is None && parsed.1.pre_release@.len() == 0 ==> shape_ok_c(r, npm_primitive_c(parsed.0, parsed.1)),  // LessThanEquals#N.N.N
         parsed.0 == Operation::LessThanEquals && parsed.1.major is None && parsed.1.minor is None && parsed.1.patch is None && parsed.1.pre_release@.len() > 0 ==> shape_ok_c(r, npm_primitive_c(parsed.0, parsed.1)),  // LessThanEquals#N.N.N+pre
         parsed.0 == Operation::LessThanEquals && parsed.1.major is None && parsed.1.minor is None && parsed.1.patch is Some && parsed.1.pre_release@.len() == 0 ==> shape_ok_c(r, npm_primitive_c(parsed.0, parsed.1)),  // LessThanEquals#N.N.S
@@ -2104,7 +2685,8 @@ fn primitive_desugar(parsed: (Operation, Partial)) -> (r: Option<BoundSet>)
 {
  broadcast use group_k_order, group_sets;
  proof { reveal(cut_cmp);
-        assert forall|s: Seq<Identifier>| #![trigger s.len()] s.len() == 1 && s[0] == Identifier::Numeric(0) implies s == pre0() by { assert(s =~= pre0()); }
+        assert forall|s: Seq<Identifier>| #![trigger s.len()] s.len() == 1 && s[0] == Identifier::Numeric(0) implies s == pre0() by { assert(s =~= pre0());        assert forall|w: Seq<Identifier>| #![trigger pre_cmp(w, pre0())] w.len() > 0 implies pre_cmp(w, pre0()) != Ordering::Less by { lemma_least_pre0(w); lemma_pre_flip(w, pre0()); }
+ }
         assert forall|s: Seq<Identifier>| #![trigger s.len()] s.len() == 0 implies s == Seq::<Identifier>::empty() by { assert(s =~= Seq::<Identifier>::empty()); }
  }
     use Operation::*;
